@@ -10,6 +10,7 @@ import (
 	"go/token"
 	"go/types"
 	"os"
+	"regexp"
 	"sort"
 	"strings"
 
@@ -1280,6 +1281,25 @@ func checkByteArrayPredicateMirror(r *Reporter, p *Prog) {
 	ek, ew := side("encodeArray", "WriteBytes")
 	dk, dw := side("decodeArray", "ReadBytesInPlace")
 	key := pkgSerix + ".encodeArray <-> decodeArray"
+	// two spellings of one test: a slice type []E is assignable to []byte exactly when E is identical
+	// to byte (both unnamed slice types), so "SliceOf(E) assignable to bytesType" and
+	// "E == bytesType.Elem()" are reduced to one canonical form before they are compared
+	bytesTypeIsByteSlice := false
+	for _, f := range p.Pkg(pkgSerix).Syntax {
+		ast.Inspect(f, func(n ast.Node) bool {
+			if vs, ok := n.(*ast.ValueSpec); ok {
+				for i, nm := range vs.Names {
+					if nm.Name == "bytesType" && i < len(vs.Values) && types.ExprString(vs.Values[i]) == "reflect.TypeOf([]byte(nil))" {
+						bytesTypeIsByteSlice = true
+					}
+				}
+			}
+			return true
+		})
+	}
+	if bytesTypeIsByteSlice {
+		ek, dk = canonByteElemTest(ek), canonByteElemTest(dk)
+	}
 	switch {
 	case ew != "" || dw != "":
 		r.Fail(rule, key, "-", "cannot find the raw-bytes branch on both sides ("+ew+" "+dw+")")
@@ -1288,6 +1308,42 @@ func checkByteArrayPredicateMirror(r *Reporter, p *Prog) {
 	default:
 		r.Pass(rule, key, "-", "both sides choose the raw-bytes form by the same test: "+ek)
 	}
+}
+
+var (
+	reSliceAssignable = regexp.MustCompile(`^reflect\.MakeSlice\(reflect\.SliceOf\((.+?)\),.*\)\.Type\(\)\.AssignableTo\(bytesType\)$`)
+	reSliceOfAssign   = regexp.MustCompile(`^reflect\.SliceOf\((.+)\)\.AssignableTo\(bytesType\)$`)
+	reElemEq          = regexp.MustCompile(`^(.+)==bytesType\.Elem\(\)$`)
+	reElemEqRev       = regexp.MustCompile(`^bytesType\.Elem\(\)==(.+)$`)
+)
+
+// canonByteElemTest reduces the spellings of "the element type E is identical to byte" to one key.
+func canonByteElemTest(k string) string {
+	for strings.HasPrefix(k, "(") && strings.HasSuffix(k, ")") && balancedParens(k[1:len(k)-1]) {
+		k = k[1 : len(k)-1]
+	}
+	for _, re := range []*regexp.Regexp{reSliceAssignable, reSliceOfAssign, reElemEq, reElemEqRev} {
+		if m := re.FindStringSubmatch(k); m != nil && balancedParens(m[1]) {
+			return "identical(" + m[1] + ", byte)"
+		}
+	}
+	return k
+}
+
+func balancedParens(s string) bool {
+	d := 0
+	for _, c := range s {
+		switch c {
+		case '(':
+			d++
+		case ')':
+			d--
+			if d < 0 {
+				return false
+			}
+		}
+	}
+	return d == 0
 }
 
 // checkCountNotComparedWithBytes: the length prefix of a sequence of objects is an element COUNT. The
